@@ -2,6 +2,7 @@
 # usage: try_patch.sh <patch file> <Cxx> [more Cxx...] : apply a patch to /repo's working tree, run the checks, undo. Never commits.
 P=$1; shift
 cd /verif
+export VERIF_EVIDENCE_DIR=$(mktemp -d)  # evidence of runs on deliberately broken trees does not replace /verif/evidence
 if ! git -C /repo diff --quiet; then echo "dirty /repo, aborting"; exit 3; fi
 git -C /repo apply "$P" || { echo "PATCH DOES NOT APPLY"; exit 3; }
 for c in "$@"; do ./vcheck $c 2>&1 | grep -a -v KNOWN-FINDING | grep -a -E "VIOLATION|key:|\] OK:|cannot analyse" | head -8; done
